@@ -131,7 +131,21 @@ def topologies():
     for sec, label in (("storages", "storage"), ("servers", "server"), ("jobs", "job"), ("steps", "step"), ("journeys", "journey"), ("devices", "device"),
                        ("networks", "network"), ("countries", "country"), ("ups", "usage pattern")):
         for n in s[sec]: s[sec][n]["display_name"] = label
+    s["ups"]["up0"]["devices"] = ["dev0", "dev1"]        # two different devices with the same display name in one usage pattern
     T["same_display_names"] = s
+    # a job defined on the server but used by no step (it never runs), next to two jobs that do; and a usage pattern whose journey
+    # lasts 0 minutes (its footprints are "no value" until the step is given a duration)
+    s = base_spec()
+    s["jobs"]["job1"] = {"server": "srv0", "request_duration": (40, "min"), "ram_needed": (300, "MB"), "data_transferred": (2, "MB")}
+    s["jobs"]["job_unused"] = {"server": "srv0", "ram_needed": (5, "GB")}
+    s["steps"]["step0"]["jobs"] = ["job0", "job1"]
+    s["steps"]["step_zero"] = {"jobs": [], "user_time_spent": (0, "min")}
+    s["journeys"]["uj_zero"] = {"steps": ["step_zero"]}
+    s["devices"]["dev1"] = {"power": (1, "W"), "cff": (30, "kg")}
+    s["ups"]["up1"] = {"journey": "uj_zero", "devices": ["dev1"], "network": "net0", "country": "c0", "start": "2025-01-01T01", "values": [2, 1, 1, 3, 1, 2]}
+    s["system"]["ups"] = ["up0", "up1"]
+    s["storages"]["st0"] = {"base_storage_need": (1, "TB")}
+    T["unused_job_and_zero_duration_journey"] = s
     # a step without any job (reading time) between two steps with jobs: it still delays what follows
     s = base_spec()
     s["jobs"]["job1"] = {"server": "srv0", "request_duration": (3, "min"), "data_transferred": (2, "MB"), "data_stored": (1, "MB")}
@@ -167,7 +181,8 @@ def topologies():
     s = base_spec()
     s["servers"]["srv0"].update({"power": (280, "W", ("Internal measurement campaign", "https://example.org/2023")),
                                  "idle_power": (40, "W", ("Internal measurement campaign", "https://example.org/2024")),
-                                 "ram": (64, "GB", ("Vendor datasheet", None))})
+                                 "ram": (64, "GB", ("Vendor datasheet", None)),
+                                 "lifespan": (6, "year", ("IEA (2023) [draft] + annex?", "https://example.org/iea"))})
     s["jobs"]["job0"].update({"data_transferred": (200, "kB", ("Vendor datasheet", "https://vendor-b.example.org"))})
     T["custom_sources"] = s
     return T
